@@ -515,7 +515,7 @@ fn run_repo(cfg_seed: u64, idx: u64, steps: usize, stream: u64) -> Vec<Rec> {
             res = repo.env.jj(&repo.dir, &args);
             planned = None;
         } else {
-            let force = if flip { Some([22usize, 22, 11, 12, 0, 1][r.below(6)]) } else { None };
+            let force = if flip { Some([22usize, 11, 12, 0, 1, 13, 16, 8, 10, 15, 7, 2][r.below(12)]) } else { None };
             let p = plan(&mut r, &mut repo, &state, &expr, &token, force);
             let mut args: Vec<&str> = p.args.iter().map(String::as_str).collect();
             args.push(&cfg_arg);
